@@ -618,6 +618,16 @@ def heap_property(prop, tier, seed):
                                    "how": "syntactic (class invariant assumed by the contracts of Command.run / ResultParameter.clean)", "confirmed": False,
                                    "detail": {"goal": "reading is_fuzzy runs %s" % fi_.key}})
     if prop in ("C01", "C14"):
+        # the initial state the invariants start from: a new command is neither finished nor running and holds what it was given
+        try:
+            from . import loadprops, loadrun
+
+            irecs, ifns = loadprops.verify_command_init(Repo(root))
+            rep.functions += ifns
+            loadrun.add_records(rep, [loadrun._strip(r) for r in irecs], None)
+        except Exception as e:
+            rep.errors.append("Command.__init__: %s: %s" % (type(e).__name__, e))
+    if prop in ("C01", "C14"):
         # touches-all-refs of the built-in execute bodies (the part of the plugin contract that is proved); for C14 this is what makes a
         # cycle of references a cycle of *calls*: a reference that execute does not follow cannot meet a running command
         repo = Repo(root)
